@@ -119,7 +119,11 @@ func TestVerifC40(t *testing.T) {
 		}
 		for pi := 0; pi < 3; pi++ {
 			actor(fmt.Sprintf("pub%d", pi), func(_ int, rng interface{ IntN(int) int }) {
-				p, err := b.bbPublish(fmt.Sprintf("p%d", rng.IntN(3)), "", "")
+				name := fmt.Sprintf("p%d", rng.IntN(3))
+				if rng.IntN(4) == 0 {
+					name = "dyn0" // served by all_others until the reload actor gives it an entry of its own (and takes it away again)
+				}
+				p, err := b.bbPublish(name, "", "")
 				if err != nil {
 					count("publish-refused")
 					time.Sleep(5 * time.Millisecond)
@@ -163,6 +167,37 @@ func TestVerifC40(t *testing.T) {
 				rd.close()
 			})
 		}
+		// a path that lives on all_others and is given / denied an entry of its own over and over while it is queried
+		actor("dynpub", func(_ int, rng interface{ IntN(int) int }) {
+			p, err := b.bbPublish("dyn0", "", "")
+			if err != nil {
+				time.Sleep(5 * time.Millisecond)
+				return
+			}
+			count("dyn-publish-ok")
+			for k := 20 + rng.IntN(100); k > 0; k-- {
+				if p.write() != nil {
+					break
+				}
+				time.Sleep(2 * time.Millisecond)
+			}
+			p.close()
+		})
+		actor("rehome", func(i int, rng interface{ IntN(int) int }) {
+			time.Sleep(time.Duration(2+rng.IntN(15)) * time.Millisecond)
+			if i%2 == 0 {
+				api("POST", "/v3/config/paths/add/dyn0", fmt.Sprintf(`{"recordDeleteAfter":"%dh"}`, 1+rng.IntN(5)))
+			} else {
+				api("DELETE", "/v3/config/paths/delete/dyn0", "")
+			}
+		})
+		actor("dynget", func(_ int, rng interface{ IntN(int) int }) {
+			api("GET", "/v3/paths/get/dyn0", "")
+			if rng.IntN(3) == 0 {
+				api("GET", "/v3/paths/list", "")
+			}
+			time.Sleep(time.Millisecond)
+		})
 		// RTMP and SRT publishers and readers (real gortmplib / gosrt clients) on the same paths
 		actor("rtmppub", func(_ int, rng interface{ IntN(int) int }) {
 			p, err := c03cDialRTMP(b.ports["rtmp"], fmt.Sprintf("p%d", rng.IntN(3)))
@@ -250,7 +285,7 @@ func TestVerifC40(t *testing.T) {
 			case 0:
 				api("GET", "/v3/paths/list", "")
 			case 1:
-				api("GET", "/v3/paths/get/"+[]string{"p0", "p1", "p2", "proxy0", "proxy1"}[rng.IntN(5)], "")
+				api("GET", "/v3/paths/get/"+[]string{"p0", "p1", "p2", "proxy0", "proxy1", "dyn0", "dyn0"}[rng.IntN(7)], "")
 			case 2:
 				api("GET", "/v3/rtspconns/list", "")
 			case 3:
@@ -297,7 +332,11 @@ func TestVerifC40(t *testing.T) {
 		})
 		actor("reload", func(i int, rng interface{ IntN(int) int }) {
 			time.Sleep(time.Duration(5+rng.IntN(40)) * time.Millisecond)
-			switch rng.IntN(8) {
+			switch rng.IntN(10) {
+			case 8:
+				api("POST", "/v3/config/paths/add/dyn0", `{}`) // a live path changes the entry it belongs to
+			case 9:
+				api("DELETE", "/v3/config/paths/delete/dyn0", "")
 			case 0:
 				api("PATCH", "/v3/config/pathdefaults/patch", fmt.Sprintf(`{"maxReaders":%d}`, rng.IntN(3)))
 			case 1:
@@ -383,6 +422,6 @@ func TestVerifC40(t *testing.T) {
 	for _, k := range ks {
 		r.Sample(map[string]any{"operation_outcome": k, "times": ops[k]})
 	}
-	r.Finish("rounds of a real Core (RTSP, RTMP, SRT, WebRTC, HLS, API, playback; metrics and pprof over TLS) under 15 concurrent actors: RTMP and SRT publishers and readers (gortmplib, gosrt) with API listing and kicking of their connections, 3 RTSP publishers (with in-band SPS / PPS changes) and 4 RTSP readers on 3 paths (overriding publishers, reader limit) and on 2 on-demand proxy paths whose RTSP sources pull from this server and fail with the publishers, API queries and session kicks, metrics / pprof scrapes, HLS requests, and a reload actor (path defaults, path add / delete / patch, HLS restart, logger change = everything restarts, write queue size); shutdown while the actors run (even rounds) or after. Oracles: Go race detector (any report with a mediamtx frame), process crash, Core.Close() returns, and no goroutine remains inside mediamtx code after shutdown. non-trivial = distinct (operation, outcome) observed + rounds",
+	r.Finish("rounds of a real Core (RTSP, RTMP, SRT, WebRTC, HLS, API, playback; metrics and pprof over TLS) under 18 concurrent actors: a path served by all_others that is given and denied an entry of its own while it is published and queried, RTMP and SRT publishers and readers (gortmplib, gosrt) with API listing and kicking of their connections, 3 RTSP publishers (with in-band SPS / PPS changes) and 4 RTSP readers on 3 paths (overriding publishers, reader limit) and on 2 on-demand proxy paths whose RTSP sources pull from this server and fail with the publishers, API queries and session kicks, metrics / pprof scrapes, HLS requests, and a reload actor (path defaults, path add / delete / patch, HLS restart, logger change = everything restarts, write queue size); shutdown while the actors run (even rounds) or after. Oracles: Go race detector (any report with a mediamtx frame), process crash, Core.Close() returns, and no goroutine remains inside mediamtx code after shutdown. non-trivial = distinct (operation, outcome) observed + rounds",
 		"client-side errors (refused, cut off, connection reset while a server restarts) are expected and only counted; completion of individual client requests is judged through the goroutines left behind, not through client-side timeouts")
 }
